@@ -45,7 +45,8 @@ def run(ctx, report):
                                    "roll-up simulation, the roll-up code sent on every row or once")})
     from . import sami_reader_fold
     report.section("generated SAMI documents", sami_reader_fold.run, ctx, report, {
-        "styles": ("R-DOC-STYLE", "1"), "balanced": ("R-SPAN-TYPESTATE", "2"), "roundtrip": ("R-ROUNDTRIP", "1")})
+        "styles": ("R-DOC-STYLE", "1"), "balanced": ("R-SPAN-TYPESTATE", "2"), "roundtrip": ("R-ROUNDTRIP", "1"),
+        "convert": ("R-CHAIN", "1")})
     report.not_decided += ["that the same characters are italic / bold / underlined after a round trip beyond the folded sets",
                            "spans across breaks and layout groups"]
 
